@@ -1414,6 +1414,32 @@ func ruleBoundSide(c *Ctx, pkg string) {
 	c.rule("R-BOUND-SIDE", 2, "an index into a slice field is bounded by the length of that field, not only by a sibling field's length")
 	for _, fn := range c.P.PkgFuncs(pkg) {
 		name := fnName(fn)
+		// lower bounds: where two sibling fields are indexed in one block and one index is known to be ≥ 0 by a
+		// dominating test while the other is not tested from below at all, the missing test is reported (an index
+		// that walks backwards needs it on both sides)
+		type lowAcc struct {
+			in    ssa.Instruction
+			f     *types.Var
+			idx   ssa.Value
+			lower bool
+		}
+		perBlock := map[*ssa.BasicBlock][]lowAcc{}
+		defer func(fn *ssa.Function, name string) {
+			for _, accs := range perBlock {
+				for _, a := range accs {
+					if a.lower {
+						continue
+					}
+					for _, b := range accs {
+						if b.lower && !sameField(a.f, b.f) && a.idx != b.idx {
+							c.sawFn(name)
+							c.bad("R-BOUND-SIDE", fmt.Sprintf("%s:%s[%s] lower bound", name, a.f.Name(), ksym(a.idx)), a.in.Pos(), fmt.Sprintf("the index into .%s is tested against 0 before this access, the index into .%s is not: walking backwards, the untested side runs below 0 and the access panics", b.f.Name(), a.f.Name()))
+							break
+						}
+					}
+				}
+			}
+		}(fn, name)
 		allInstrs(fn, func(in ssa.Instruction) {
 			var xs, idx ssa.Value
 			switch x := in.(type) {
@@ -1433,6 +1459,22 @@ func ruleBoundSide(c *Ctx, pkg string) {
 			}
 			if _, isConst := idx.(*ssa.Const); isConst {
 				return
+			}
+			{
+				lower := false
+				for _, cm := range cmpsAt(in.Block()) {
+					x, y, op := cm.X, cm.Y, cm.Op
+					if y == idx {
+						x, y, op = y, x, flipOp(op)
+					}
+					if x != idx {
+						continue
+					}
+					if k, ok := constInt(y); ok && ((op == token.GEQ && k >= 0) || (op == token.GTR && k >= -1)) {
+						lower = true
+					}
+				}
+				perBlock[in.Block()] = append(perBlock[in.Block()], lowAcc{in, f, idx, lower})
 			}
 			own, sibling := false, ""
 			ownStrict, ownUpper := false, false
